@@ -320,6 +320,11 @@ pub fn gen_registry(r: &mut Rng, with_queries: bool) -> Case {
         if r.chance(200) {
             s.stopped = vec![Act::Push(7)];
         }
+        // a service may also die: a fatal handler timeout (and a panicking handler, a failing start below)
+        if r.chance(200) {
+            s.timeout = Some(2 * (2 + r.below(6)));
+            s.fail_on_timeout = true;
+        }
         s
     };
     let svc = vec![svc_spec(r), svc_spec(r)];
@@ -340,6 +345,11 @@ pub fn gen_registry(r: &mut Rng, with_queries: bool) -> Case {
                     let mut sp = svc[(ty - 1) as usize].clone();
                     sp.ty = ty;
                     sp.entry = Entry::Spawn;
+                    // (only an instance spawned by hand may fail to start: a default instance that
+                    // does trips from_registry's debug assertion while the registry is locked)
+                    if r.chance(80) {
+                        sp.started.push(Act::Fail);
+                    }
                     prog.push(Cop::Spawn { x, spec: sp });
                     if r.chance(700) { Cop::Register { h: x } } else { Cop::Replace { h: x } }
                 }
@@ -350,7 +360,15 @@ pub fn gen_registry(r: &mut Rng, with_queries: bool) -> Case {
                 12 | 13 => Cop::AlreadyRunning { ty },
                 14 => Cop::Stop { h },
                 15 => Cop::Halt { h },
-                16 => Cop::Call { h, script: if r.chance(300) { vec![Act::CtxStop] } else { vec![] } },
+                16 => Cop::Call {
+                    h,
+                    script: match r.below(10) {
+                        0..=2 => vec![Act::CtxStop],
+                        3 | 4 => vec![Act::Panic],
+                        5 | 6 => vec![Act::Sleep(2 * (1 + r.below(12)))],
+                        _ => vec![],
+                    },
+                },
                 17 => Cop::Drop { h },
                 18 => Cop::Sleep(1 + r.below(10)),
                 19 => Cop::Yield,
@@ -558,7 +576,11 @@ pub fn gen_case(family: &str, r: &mut Rng) -> Case {
     }
     let p = profile(family);
     let nclients = 1 + r.below(p.max_clients);
-    let sp = spec(r, &p);
+    let mut sp = spec(r, &p);
+    if matches!(p.name, "backpressure" | "mailbox" | "handles" | "restart-bp") && r.chance(300) {
+        // the actor hands out a weak handle taken from its own context
+        sp.started.push(Act::Share { x: 1 + r.below(p.nslots - 1) as usize, caller: r.chance(300) });
+    }
     let eff = crate::spawn::effective(&sp);
     let mut clients: Vec<Vec<Cop>> = vec![];
     // client 0: spawn into slot 0 and derive handles of assorted kinds into the other slots
